@@ -105,6 +105,8 @@ def call_strategy(moves=True, extras=True):
             st.sampled_from(["celsius", "kelvin"]).map(
                 lambda m: C("set_temperature_units", m)),
             st.just(C("comment", "note")),
+            st.sampled_from([None, {"decimal_places": 1}, {"comment_symbols": "(", "y_axis": "V"}]).map(
+                lambda c: {"op": "other_builder", "cfg": c}),
         )
         opts += [misc, misc]
     return st.one_of(*opts)
@@ -149,6 +151,41 @@ class InterlockModel:
         elif op == "emergency_halt":
             self.tool = False
             self.coolant = False
+
+
+def other_builder_activity(cfg=None):
+    """Create ANOTHER builder and use it heavily: tool and coolant on, bounds,
+    moves, transforms, hooks, temperatures.  Nothing of this may leak into the
+    builder under test (class-level / shared state)."""
+    try:
+        return _other_builder_activity(cfg)
+    except Violation:
+        raise
+    except Exception as e:
+        raise Violation(f"ordinary use of a SECOND, freshly created builder raised "
+                        f"{type(e).__name__}: {e} (state leaking between builder objects?)")
+
+
+def _other_builder_activity(cfg=None):
+    import gscrib
+    from vf.common import recorder_class
+    o = gscrib.GCodeBuilder(**(cfg or {}))
+    o.add_writer(recorder_class()())
+    o.set_bounds("axes", (-5, -5, -5), (5, 5, 5))
+    o.set_bounds("feed-rate", 1, 50)
+    o.set_bounds("tool-power", 1, 50)
+    o.transform.translate(100.0, 50.0, 25.0)
+    o.transform.save_state("shared")
+    o.add_hook(lambda origin, target, params, state: params)
+    o.move(x=1, y=1, F=20)
+    o.tool_on("cw", 10)
+    o.coolant_on("mist")
+    o.set_hotend_temperature(215.0)
+    o.set_distance_mode("relative")
+    o.set_extrusion_mode("relative")
+    o.set_length_units("in")
+    o.move(x=1, E=3.0, A=9.0)
+    return o
 
 
 def close(fr, value, U):
